@@ -783,7 +783,7 @@ fn main() {
     }
 
     if prop == "C12" {
-        r.section("strategies", r.args.n(6_000, 200_000), |k, rng, acc| match k % 6 {
+        r.section("strategies", r.args.n(30_000, 600_000), |k, rng, acc| match k % 6 {
             0 => c12_case::<i32>(rng, acc, thorough),
             1 => c12_case::<i64>(rng, acc, thorough),
             2 => c12_case::<u16>(rng, acc, thorough),
